@@ -48,9 +48,10 @@ fn trivial_builtin(this: Option<SourcedValue>, args: Vec<SourcedValue>) -> Resul
 
 // see eval_matrix.rs: writing `name` in place makes the niche-encoded kind of the value a constant
 fn mk_builtin() -> Value {
+    let text: &str = "b";
     let mut v = Value::BuiltinFunc{name: String::new(), f: trivial_builtin};
     match &mut v {
-        Value::BuiltinFunc{name, ..} => { *name = String::from("b"); },
+        Value::BuiltinFunc{name, ..} => { *name = String::from(text); },
         _ => unreachable!(),
     }
     v
